@@ -46,7 +46,7 @@ class SGD(Optimizer):
         """
         super().__init__(parameters, lr)
         self.momentum = momentum
-        self.momentum_buffer = []
+        self.momentum_buffer = [None for _ in range(len(parameters))]
         self.nesterov = nesterov
         self.dampening = dampening
         self.maximize = maximize
@@ -59,6 +59,8 @@ class SGD(Optimizer):
         super().step()
         with synapgrad.no_grad():
             for i, p in enumerate(self.parameters):
+                # frozen parameters and parameters without a gradient are skipped
+                if not p.requires_grad or p._grad is None: continue
                 grad = p._grad
                 
                 # Weight decay
@@ -67,11 +69,11 @@ class SGD(Optimizer):
                 
                 # Momentum
                 if self.momentum != 0:
-                    if self.t > 1:
+                    if self.momentum_buffer[i] is not None:
                         self.momentum_buffer[i] = self.momentum*self.momentum_buffer[i] + (1.0 - self.dampening)*grad
                     else:
                         # own copy: the buffer must not share memory with p._grad, which later backward calls accumulate into
-                        self.momentum_buffer.append(np.array(grad, copy=True))
+                        self.momentum_buffer[i] = np.array(grad, copy=True)
                 
                     # Nesterov
                     if self.nesterov:
@@ -120,6 +122,8 @@ class Adam(Optimizer):
         super().step()
         with synapgrad.no_grad():
             for i, p in enumerate(self.parameters):
+                # frozen parameters and parameters without a gradient are skipped
+                if not p.requires_grad or p._grad is None: continue
                 grad = -p._grad if self.maximize else p._grad   
                     
                 # Weight decay
@@ -173,6 +177,8 @@ class AdamW(Optimizer):
         super().step()
         with synapgrad.no_grad():
             for i, p in enumerate(self.parameters):
+                # frozen parameters and parameters without a gradient are skipped
+                if not p.requires_grad or p._grad is None: continue
                 grad = -p._grad if self.maximize else p._grad   
                 
                 # Weight decay
